@@ -161,7 +161,7 @@ func geoMap(tables []*csvTable) map[string][]string {
 
 // geoLastBits reports whether two summary-row cells differ only in the last bits of their
 // numbers: every element is equal as text or a number (with or without a % sign) that agrees
-// to a relative 1e-13.
+// to a relative 1e-13 (a percentage: its ratio agrees to a relative 1e-13 or to 0.01 points).
 func geoLastBits(a, b []string) bool {
 	for i := range a {
 		if a[i] == b[i] {
@@ -175,7 +175,7 @@ func geoLastBits(a, b []string) bool {
 		if strings.HasSuffix(a[i], "%") {
 			// a ratio printed as a percentage change with two decimals: the ratios are 1+x/100
 			x, y = 1+x/100, 1+y/100
-			if math.Abs(x-y) > 0.0100001/100 {
+			if math.Abs(x-y) > 0.0100001/100 && math.Abs(x-y) > 1e-13*math.Max(math.Abs(x), math.Abs(y)) {
 				return false
 			}
 			continue
